@@ -346,7 +346,10 @@ def run(ctx):
                 'every container on every run; every solver whose documented class contains the matrix x trans N/T/H x '
                 'right-hand sides (n), (n,1), (n,k) incl. dependent (real and non-real coefficients), duplicate, zero and n+1 '
                 'columns, real and complex.  A case is non-trivial when n >= 2; distinct by (solver, class, n, container, '
-                'trans, rhs kind, values).  auto_determine_solver: overrides x availability patterns per stored matrix.')
+                'trans, rhs kind, values).  auto_determine_solver: overrides x availability patterns per stored matrix.  '
+                'Multigrid prolongation R: FE domains of the CG sweep (every nested level) + further rectangular 2-D / 3-D '
+                'domains with nelx != nely != nelz, 1-3 dofs per node, exact against Model/MGInterp.v.  (CG sweep = oracle: '
+                'preconditioners x containers x rhs kinds x trans x initial guess, FE matrices of rectangular domains.)')
     ctx.assumptions += ['theorems are over exact arithmetic in an arbitrary star ring; floating-point accuracy of LAPACK/SuperLU is '
                         'validated (1e-9 relative, in exact Q inside Coq against the exact rational solution), not proved',
                         'convergence of CG / multigrid is run-time behaviour (post-condition checked), not proved',
@@ -777,19 +780,19 @@ def cg_sweep(ctx, pym):
                 ctx.case(('mg-interp', key), True, sample=dict(case=f'prolongation of domain {key}'))
                 ctx.count(f'mg-interp:{"2-D" if nz == 0 else "3-D"} {"square/cubic" if nx == ny and nz in (0, nx) else "rectangular"}, ndof={ndof}')
                 ctx.search_evaluations += 1
-                rowsum = np.asarray(abs(Rc).sum(axis=1)).ravel() if Rc.nnz else np.zeros(Rc.shape[0])
                 colmax = np.asarray(abs(Rc).max(axis=0).todense()).ravel() if Rc.nnz else np.zeros(Rc.shape[1])
-                if np.any(np.imag(np.asarray(Rc.data))) or not np.array_equal(v8, np.round(v8)) or not np.allclose(rowsum, 1) or np.any(colmax == 0):
-                    # plain statement on the implementation: weights are multiples of 1/8, rows sum to 1 (constants are
-                    # interpolated exactly), no coarse dof is left out
-                    ctx.violation('impl-violates', 'GeometricMultigrid.setup_interpolation', 'rows of R sum to 1 and every coarse dof has an entry',
+                if np.any(colmax == 0):
+                    # plain statement on the implementation: no coarse dof is left out (an empty column of R makes the
+                    # Galerkin coarse matrix R^T A R singular, so the preconditioner cannot be applied)
+                    ctx.violation('impl-violates', 'GeometricMultigrid.setup_interpolation', 'every coarse dof has an entry in R',
                                   f'{"2-D" if nz == 0 else "3-D"} domain', lab,
-                                  got=dict(empty_columns=np.nonzero(colmax == 0)[0].tolist()[:20], bad_rows=np.nonzero(~np.isclose(rowsum, 1))[0].tolist()[:20]))
+                                  got=dict(empty_columns=np.nonzero(colmax == 0)[0].tolist()[:20]))
                 keys = Rc.row.astype(np.int64) * Rc.shape[1] + Rc.col.astype(np.int64)
                 o = np.argsort(keys, kind='stable')
                 obs = '[' + '; '.join(f'({int(keys[t])}, {int(round(v8[t]))})' for t in o) + ']'
                 shape_ok = Rc.shape == (ndof * (nx + 1) * (ny + 1) * (nz + 1), ndof * (nx // 2 + 1) * (ny // 2 + 1) * (nz // 2 + 1))
-                mg_checks.append(f'interp_matches {{| nelx := {nx}; nely := {ny}; nelz := {nz} |}} {ndof} {obs} && {vlib.blit(shape_ok)}')
+                exact8 = bool(np.array_equal(v8, np.round(v8)) and not np.any(np.imag(np.asarray(Rc.data))))   # multiples of 1/8
+                mg_checks.append(f'interp_matches {{| nelx := {nx}; nely := {ny}; nelz := {nz} |}} {ndof} {obs} && {vlib.blit(shape_ok)} && {vlib.blit(exact8)}')
                 mg_labels.append(lab)
             mg = getattr(mg, 'inner_level', None)
             nx, ny, nz = nx // 2, ny // 2, nz // 2
@@ -826,7 +829,7 @@ def cg_sweep(ctx, pym):
                 x = solver.solve(b.copy(), x0=None if x0 is None else x0.copy(), trans=t)
             except Exception as e:
                 if narrow and type(e).__name__ == 'UFuncTypeError':
-                    # NEW_C05_cg_x0_narrower_dtype: x keeps the dtype of the guess, `x += p @ alpha` cannot cast
+                    # F31 (fixed): x kept the dtype of the guess, `x += p @ alpha` could not cast
                     ctx.violation('impl-violates', 'CG.solve', 'solve accepts an initial guess of narrower dtype than the solution',
                                   'x0 real/integer, system complex/float', dict(replay, error=repr(e)))
                 elif type(A).__name__.startswith('dok') and x0 is None and isinstance(e, (IndexError, ValueError)):
@@ -885,10 +888,12 @@ def cg_sweep(ctx, pym):
                 solver = make(pl, cls, As, PCS[pl], dict(A=A.tolist().__repr__(), container=cont, preconditioner=pl))
                 if solver is None:
                     continue
+                x0 = None if c.get('x0') is None else np.array(c['x0'], dtype=c.get('x0_dtype', 'float'))
                 for t in 'NTH':
-                    check(pl, As, solver, b, t, None, cls)
+                    check(pl, As, solver, b, t, x0, cls, narrow=x0 is not None)
 
-    # ---- an initial guess of narrower dtype than the solution (real guess for a complex system, integer guess)
+    # ---- an initial guess of narrower dtype than the solution (real guess for a complex system, integer guess):
+    #      witnesses of F31 (fixed), vector and block
     Ac_ = np.array([[6, 1 + 1j, 0], [1 - 1j, 7, 2 - 1j], [0, 2 + 1j, 8]])
     Ar_ = np.array([[4., 1, 0], [1, 5, 2], [0, 2, 6]])
     for nm_, A, b, x0 in (('real x0, complex matrix, real rhs', Ac_, np.array([1., 2, 3]), np.ones(3)),
